@@ -13,21 +13,26 @@ import (
 func init() {
 	Register(&Prop{
 		ID: "C17",
-		Rule: "a hijacking request (optionally preceded by ordinary requests, optionally HijackSetNoResponse) followed by arbitrary bytes E: in the same write, in a later write, or straddling the 4096-byte read buffer (head padded), " +
+		Rule: "a hijacking request (optionally preceded by ordinary requests, which may call HijackSetNoResponse(true) without hijacking; optionally HijackSetNoResponse on the hijacking request) followed by arbitrary bytes E: in the same write, in a later write, or straddling the 4096-byte read buffer (head padded), " +
 			"x ReduceMemoryUsage x KeepHijackedConns x handler reading everything or only k bytes (the rest read after the handler returned when the connection is kept); " +
 			"monitor: bytes read from the hijacked connection = E exactly, response fully written before the hijack handler starts (nothing written with NoResponse), nothing written afterwards, closed iff not kept; " +
 			"non-trivial = E non-empty; distinct = distinct input",
 		Parallel: true,
 		Build: func(kind string, a [][]byte) *Case {
 			cfg := parseCfg(a[0])
-			pre, _ := strconv.Atoi(string(a[1]))   // ordinary requests before
+			preNR := strings.HasSuffix(string(a[1]), "n") // the ordinary requests call HijackSetNoResponse(true) without hijacking
+			pre, _ := strconv.Atoi(strings.TrimSuffix(string(a[1]), "n")) // ordinary requests before
 			pad, _ := strconv.Atoi(string(a[2]))   // padding header length
 			opts := string(a[3])                   // extra query options: "&hjn=1", "&hjk=5"
 			E := a[4]
 			split := string(a[5]) // "same" | "later" | "mid"
 			var head bytes.Buffer
 			for i := 0; i < pre; i++ {
-				fmt.Fprintf(&head, "GET /pre%d HTTP/1.1\r\nHost: h\r\n\r\n", i)
+				q := ""
+				if preNR {
+					q = "?hjnr=1"
+				}
+				fmt.Fprintf(&head, "GET /pre%d%s HTTP/1.1\r\nHost: h\r\n\r\n", i, q)
 			}
 			fmt.Fprintf(&head, "GET /hj?hj=1%s HTTP/1.1\r\nHost: h\r\n", opts)
 			if pad > 0 {
@@ -122,7 +127,11 @@ func init() {
 				if strings.Contains(cfg, "khj=1") && len(E) > 1 && r.Chance(60) {
 					opts += fmt.Sprintf("&hjk=%d", 1+r.Intn(len(E)))
 				}
-				emit("hijack", B(cfg), N(r.Intn(3)), N(pad), B(opts), E, B(r.Pick([]string{"same", "same", "later", "mid"})))
+				pre := fmt.Sprint(r.Intn(3))
+				if r.Chance(25) {
+					pre += "n"
+				}
+				emit("hijack", B(cfg), B(pre), N(pad), B(opts), E, B(r.Pick([]string{"same", "same", "later", "mid"})))
 			}
 		},
 	})
